@@ -20,7 +20,7 @@ from . import structural as S
 ID = "C04"
 LEVEL = "exploration"
 BATCH = 1
-TIMEOUT = 600
+TIMEOUT = 3000
 REQUIRED_OBS = ["element_sums_checked", "charge_sums_checked", "helper_values_checked", "backend_dense", "backend_sparse",
                 "tag_mixed_electron_spelling", "tag_ice_species", "tag_labelled_species"]
 RULE = ("networks balanced by construction (ions, electrons spelt e-/E-/E/e, ortho/para labels, D isotopologues, ice species "
@@ -86,7 +86,17 @@ def make_case(rng, tier):
 def gen_cases(tier):
     rng = common.rng_for(ID)
     n = 40 if tier == "quick" else 600
-    return [make_case(random.Random(rng.getrandbits(64)), tier) for _ in range(n)]
+    cases = [make_case(random.Random(rng.getrandbits(64)), tier) for _ in range(n)]
+    # bundled real-world networks: the expected element / charge drift is computed per reaction from /verif's own compositions
+    # (zero for every balanced reaction), so unbalanced reactions of a database network do not raise false alarms
+    r = random.Random(rng.getrandbits(64))
+    for ex, bes in ([("primordial", None)] + ([("deuterium", ["dense", "sparse"])] if tier == "thorough" else [])):
+        c = c01.bundled_case(ex, r, backends=bes)
+        c.pop("cooling", None)           # conservation is a statement about the chemical equations
+        c["ks"] = [[r.choice([-1, 1]) * 10 ** r.uniform(-20, 20) for _ in range(len(c["net"]["reactions"]))] for _ in range(2)]
+        c["bundled_no_thermal"] = True
+        cases.append(c)
+    return cases
 
 
 def build_network(case, work):
@@ -126,9 +136,20 @@ def build_network(case, work):
 
 def run_case(case, ctx):
     obs, viol = Counter(), []
-    backends = ["dense", "sparse", "cusparse", "odeint"]
+    backends = case.get("backends") or ["dense", "sparse", "cusparse", "odeint"]
     orig = S.build_network
-    S.build_network = build_network
+    if case.get("bundled"):
+        def build_bundled(c, work):
+            import importlib
+            from naunet.network import Network
+            from naunet.species import Species
+            Species.reset()
+            mod = importlib.import_module(f"naunet.examples.{c['bundled']}")
+            return Network(filelist=str(common.REPO / "naunet" / "examples" / c["bundled"] / mod.files), fileformats=mod.formats, elements=list(mod.elements),
+                           pseudo_elements=list(mod.pseudo_elements), allowed_species=list(mod.allowed_species), required_species=list(mod.extra_species))
+        S.build_network = build_bundled
+    else:
+        S.build_network = build_network
     try:
         out = S.run_backends(case, ctx, backends, {"pass", "inject", "elem"})
     finally:
@@ -136,6 +157,20 @@ def run_case(case, ctx):
     usable = S.preamble(out, backends, viol, obs)
     species = case["net"]["species"]
     elements = sorted({e for s in species for e in s["comp"]})
+    by_name = {s["name"]: s for s in species}
+    # per-reaction imbalance (all zero for the generated networks, which are balanced by construction)
+    imb = []
+    for r in case["net"]["reactions"]:
+        d = {e: 0 for e in elements}
+        q = 0
+        for nme, sgn in [(x, -1) for x in r["reactants"]] + [(x, 1) for x in r["products"]]:
+            for e, c in by_name[nme]["comp"].items():
+                d[e] += sgn * c
+            q += sgn * by_name[nme]["charge"]
+        imb.append((d, q))
+    if case.get("bundled"):
+        obs["bundled_unbalanced_reactions"] += sum(1 for d, q in imb if q or any(d.values()))
+        obs["tag_bundled_" + case["bundled"]] += 1
     for be in usable:
         o = out[be]
         n, slots = o["n_eq"], o["slots"]
@@ -157,18 +192,26 @@ def run_case(case, ctx):
                             k = ev["k"][s * nre:(s + 1) * nre] if be == "cusparse" else ev["k"]
                         ydot = ev["ydot"][s * n:(s + 1) * n]
                         _, scale = S.ref_fex(case, slots, k, y, n_eq=n)
+                        monos = []
+                        for ri, r in enumerate(case["net"]["reactions"]):
+                            m = k[ri]
+                            for nme in r["reactants"]:
+                                m *= y[slots[nme]]
+                            monos.append(m)
                         for e in elements:
                             tot = sum(sp["comp"].get(e, 0) * ydot[slots[sp["name"]]] for sp in species)
                             sc = sum(sp["comp"].get(e, 0) * scale[slots[sp["name"]]] for sp in species)
+                            exp_e = sum(imb[ri][0][e] * monos[ri] for ri in range(len(monos)) if imb[ri][0][e])
                             obs["element_sums_checked"] += 1
-                            if not close(tot, 0.0, sc):
+                            if not close(tot, exp_e, sc):
                                 viol.append(violation("element_not_conserved", f"{be} {name}: sum_i c(i,{e}) ydot_i = {tot!r} (scale {sc!r})",
                                                       backend=be, element=e, total=tot, scale=sc))
                                 break
                         tot = sum(sp["charge"] * ydot[slots[sp["name"]]] for sp in species)
                         sc = sum(abs(sp["charge"]) * scale[slots[sp["name"]]] for sp in species)
+                        exp_q = sum(imb[ri][1] * monos[ri] for ri in range(len(monos)) if imb[ri][1])
                         obs["charge_sums_checked"] += 1
-                        if not close(tot, 0.0, sc):
+                        if not close(tot, exp_q, sc):
                             viol.append(violation("charge_not_conserved", f"{be} {name}: sum_i q_i ydot_i = {tot!r} (scale {sc!r})", backend=be))
                 elif name == "elem":
                     y = run["y"][0]
